@@ -55,6 +55,7 @@ def harness_bin(profile="release"):
         shutil.copy(os.path.join(REPO, "Cargo.lock"), lock)
     t0 = time.time()
     env = {"CARGO_NET_OFFLINE": "true"}
+    run_extractor()
     import fcntl
     with open(os.path.join(WORK, ".cargo-build.lock"), "w") as lk:
         fcntl.flock(lk, fcntl.LOCK_EX)
@@ -67,6 +68,19 @@ def harness_bin(profile="release"):
     log("[build] harness %s ready in %.1fs" % (profile, time.time() - t0))
     _built[profile] = b
     return b
+
+
+_extracted = []
+
+
+def run_extractor():
+    """Regenerate Fields/Layouts/Gates.tla and harness/src/generated.rs from /repo's working tree."""
+    if _extracted:
+        return
+    p = sh([sys.executable, os.path.join(VERIF, "tools", "extract.py")], check=False, timeout=120)
+    if p.returncode != 0:
+        raise ToolError("extractor failed: " + p.stdout[-2000:])
+    _extracted.append(True)
 
 
 def record(family, out, profile="release", timeout=1200, **kw):
